@@ -1,2 +1,555 @@
-def run_for_property(prop, src, tier):
+"""MIR -> SMT-LIB2 cross-check for the loop-free integer/enum kernels (DESIGN.md section 1, 'second engine').
+
+The current working tree's MIR is dumped with the nightly compiler (`-Zunpretty=mir`), the bodies of a few
+named functions are symbolically executed path by path (all paths of the acyclic CFG; inputs are SMT
+variables), and each obligation `precondition => property(inputs, result)` is negated and given to BOTH
+z3 and cvc5. unsat from both = holds for every input; sat = concrete counterexample (reported as a
+violation after it has been replayed through a direct evaluation of the same MIR paths = 'model replay',
+and - for get_exit_code/Status::and - is also what the Kani harness of the same function decides);
+anything else (unknown, `(error`, disagreement, untranslatable MIR) = inconclusive.
+
+Translatable subset: locals of integer / bool / C-like-enum / Result<scalar, opaque> type; statements
+`_x = copy|move _y`, `const`, Eq/Ne/Lt/Le/Gt/Ge, `discriminant(..)`, enum constructors, `(_y as V).0`;
+terminators goto / switchInt / return / unreachable / panic (= reaching it is a separate obligation) /
+calls to functions listed as uninterpreted (their result is a fresh symbolic value).
+"""
+import os, re, subprocess, time, fcntl, shutil
+
+VERIF = os.path.dirname(os.path.dirname(os.path.abspath(__file__)))
+CACHE = os.path.join(VERIF, ".cache", "mir")
+VENDOR = os.path.join(VERIF, ".cache", "vendor")
+
+
+class Untranslatable(Exception):
+    pass
+
+
+# ------------------------------------------------------------------------------------------------
+def dump_mir(src):
+    """src = scratch copy of the current working tree (already rsync'ed by the driver)."""
+    os.makedirs(CACHE, exist_ok=True)
+    lock = open(os.path.join(CACHE, ".lock"), "w")
+    fcntl.flock(lock, fcntl.LOCK_EX)
+    try:
+        msrc = os.path.join(CACHE, "src")
+        subprocess.check_call(["rsync", "-a", "--delete", "--exclude", "/target", "--exclude", "/guard/src/verif_harness",
+                               os.path.join(src, "guard", "src") + "/", os.path.join(msrc, "guard", "src") + "/"]
+                              ) if os.path.exists(msrc) else shutil.copytree(src, msrc, ignore=shutil.ignore_patterns("target", "verif_harness"))
+        # the driver appended #[cfg(kani)] lines to some module files; they are inert without cfg(kani)
+        os.makedirs(os.path.join(msrc, ".cargo"), exist_ok=True)
+        with open(os.path.join(msrc, ".cargo", "config.toml"), "w") as f:
+            f.write('[source.crates-io]\nreplace-with = "vendored-sources"\n'
+                    f'[source.vendored-sources]\ndirectory = "{VENDOR}"\n[net]\noffline = true\n')
+        lib = os.path.join(msrc, "guard", "src", "lib.rs")
+        os.utime(lib, None)
+        env = dict(os.environ)
+        env["RUSTFLAGS"] = "-A warnings -A dangerous_implicit_autorefs"
+        env["CARGO_TARGET_DIR"] = os.path.join(CACHE, "target")
+        env["CARGO_NET_OFFLINE"] = "true"
+        env.pop("RUSTUP_TOOLCHAIN", None)
+        p = subprocess.run(["cargo", "+nightly", "rustc", "--offline", "--lib", "--", "-Zunpretty=mir",
+                            "-C", "debug-assertions=off", "-C", "overflow-checks=on"],
+                           cwd=os.path.join(msrc, "guard"), env=env, stdout=subprocess.PIPE, stderr=subprocess.PIPE,
+                           text=True, timeout=1200)
+        if "fn " not in p.stdout:
+            raise Untranslatable("MIR dump failed: " + p.stderr[-500:])
+        return p.stdout
+    finally:
+        fcntl.flock(lock, fcntl.LOCK_UN)
+
+
+def find_fn(mir, header_re):
+    m = re.search(r"^fn " + header_re + r"\(.*?\) -> .*? \{$", mir, re.M)
+    if not m:
+        raise Untranslatable(f"function matching /{header_re}/ not found in MIR")
+    start = m.start()
+    end = mir.index("\n}\n", start) + 3
+    return mir[start:end]
+
+
+def parse_fn(text):
+    """-> (header, locals{name:type}, blocks{bbN: [lines]})"""
+    lines = text.splitlines()
+    header = lines[0]
+    locs = {}
+    for m in re.finditer(r"_(\d+): ([^,)]+(?:<[^>]*>)?[^,)]*)", header[: header.rindex("->")]):
+        locs["_" + m.group(1)] = m.group(2).strip()
+    locs["_0"] = header[header.rindex("->") + 2: -1].strip()
+    blocks, cur = {}, None
+    for ln in lines[1:]:
+        s = ln.strip()
+        m = re.match(r"let (?:mut )?(_\d+): (.*);$", s)
+        if m:
+            locs[m.group(1)] = m.group(2)
+            continue
+        m = re.match(r"(bb\d+)(?: \(cleanup\))?: \{$", s)
+        if m:
+            cur = m.group(1)
+            blocks[cur] = []
+            continue
+        if s == "}":
+            cur = None
+            continue
+        if cur and s and not s.startswith(("debug ", "scope ", "let ")):
+            blocks[cur].append(s)
+    return header, locs, blocks
+
+
+# ------------------------------------------------------------------------------------------------
+# symbolic values: ("int", term) / ("bool", term) / ("enum", ty, tag_term, payload{variant: value})
+# ------------------------------------------------------------------------------------------------
+class Sym:
+    def __init__(self, consts, enums, uninterp):
+        self.consts = consts        # name -> int
+        self.enums = enums          # type-name suffix -> [variants]
+        self.uninterp = uninterp    # callee name -> constructor of a fresh symbolic value
+        self.decls = []
+        self.n = 0
+
+    def fresh(self, sort, hint="v"):
+        self.n += 1
+        name = f"{hint}!{self.n}"
+        self.decls.append(f"(declare-const |{name}| {sort})")
+        return f"|{name}|"
+
+
+def int_lit(v):
+    return str(v) if v >= 0 else f"(- {-v})"
+
+
+def enum_variants(sym, ty):
+    for k, v in sym.enums.items():
+        if ty.endswith(k):
+            return v
     return None
+
+
+def eval_operand(sym, env, locs, op):
+    op = op.strip()
+    m = re.match(r"^(?:copy|move) (.*)$", op)
+    if m:
+        return eval_place(sym, env, locs, m.group(1).strip())
+    m = re.match(r"^const (-?\d+)_[iu](?:8|16|32|64|size)$", op)
+    if m:
+        return ("int", int_lit(int(m.group(1))))
+    m = re.match(r"^const (true|false)$", op)
+    if m:
+        return ("bool", m.group(1))
+    m = re.match(r"^const (?:[\w:<>]+::)?(\w+)$", op)
+    if m and m.group(1) in sym.consts:
+        return ("int", int_lit(sym.consts[m.group(1)]))
+    raise Untranslatable(f"operand {op!r}")
+
+
+def eval_place(sym, env, locs, place):
+    place = place.strip()
+    m = re.match(r"^\(\*(_\d+)\)$", place)          # deref of a reference argument: refs are transparent
+    if m:
+        place = m.group(1)
+    m = re.match(r"^\(\((_\d+) as (\w+)\)\.0: .*\)$", place)   # enum payload projection
+    if m:
+        base = env.get(m.group(1))
+        if not base or base[0] != "enum":
+            raise Untranslatable(f"projection on non-enum {place}")
+        if m.group(2) not in base[3]:
+            raise Untranslatable(f"no payload for variant {m.group(2)}")
+        return base[3][m.group(2)]
+    if re.match(r"^_\d+$", place):
+        if place not in env:
+            raise Untranslatable(f"use of unassigned local {place}")
+        return env[place]
+    raise Untranslatable(f"place {place!r}")
+
+
+BINOPS = {"Eq": "=", "Lt": "<", "Le": "<=", "Gt": ">", "Ge": ">="}
+
+
+def eval_rvalue(sym, env, locs, dst, rv):
+    rv = rv.strip()
+    m = re.match(r"^(Eq|Ne|Lt|Le|Gt|Ge)\((.*), (.*)\)$", rv)
+    if m:
+        a = eval_operand(sym, env, locs, m.group(2))
+        b = eval_operand(sym, env, locs, m.group(3))
+        if a[0] != b[0] or a[0] == "enum":
+            raise Untranslatable(f"binop on {a[0]},{b[0]}")
+        if m.group(1) == "Ne":
+            return ("bool", f"(not (= {a[1]} {b[1]}))")
+        return ("bool", f"({BINOPS[m.group(1)]} {a[1]} {b[1]})")
+    m = re.match(r"^Not\((.*)\)$", rv)
+    if m:
+        a = eval_operand(sym, env, locs, m.group(1))
+        if a[0] != "bool":
+            raise Untranslatable("Not on non-bool")
+        return ("bool", f"(not {a[1]})")
+    m = re.match(r"^discriminant\((.*)\)$", rv)
+    if m:
+        v = eval_place(sym, env, locs, m.group(1))
+        if v[0] != "enum":
+            raise Untranslatable("discriminant of non-enum")
+        return ("int", v[2])
+    # Result constructors
+    m = re.match(r"^std::result::Result::<.*>::(Ok|Err)\((.*)\)$", rv)
+    if m:
+        payload = eval_operand(sym, env, locs, m.group(2))
+        return ("enum", "Result", "0" if m.group(1) == "Ok" else "1", {m.group(1): payload})
+    # C-like enum variant
+    m = re.match(r"^([\w:]+)::(\w+)$", rv)
+    if m:
+        vs = enum_variants(sym, m.group(1))
+        if vs and m.group(2) in vs:
+            return ("enum", m.group(1), str(vs.index(m.group(2))), {})
+    # plain operand
+    return eval_operand(sym, env, locs, rv)
+
+
+def paths(sym, header, locs, blocks, args):
+    """Enumerate all CFG paths. Yields (path_condition_terms, outcome) where outcome is
+    ('return', value) | ('panic', msg) | ('unreachable',)."""
+    out = []
+
+    def run(bb, env, pc, depth):
+        if depth > 200:
+            raise Untranslatable("CFG too deep / loop")
+        env = dict(env)
+        for st in blocks[bb]:
+            st = st.rstrip(";")
+            if st.startswith(("StorageLive", "StorageDead", "nop", "FakeRead", "PlaceMention", "AscribeUserType", "Retag", "Coverage")):
+                continue
+            if st == "return":
+                out.append((pc, ("return", env.get("_0"))))
+                return
+            if st == "unreachable":
+                out.append((pc, ("unreachable",)))
+                return
+            m = re.match(r"^goto -> (bb\d+)$", st)
+            if m:
+                return run(m.group(1), env, pc, depth + 1)
+            m = re.match(r"^switchInt\((.*)\) -> \[(.*)\]$", st)
+            if m:
+                v = eval_operand(sym, env, locs, m.group(1))
+                ty = None
+                pm = re.match(r"^(?:copy|move) (_\d+)$", m.group(1).strip())
+                if pm:
+                    ty = locs.get(pm.group(1))
+                arms = [a.strip() for a in m.group(2).split(",")]
+                seen = []
+                for a in arms:
+                    k, tgt = [x.strip() for x in a.split(":")]
+                    if k == "otherwise":
+                        cond = "true" if not seen else "(and " + " ".join(f"(not {c})" for c in seen) + ")"
+                        run(tgt, env, pc + [cond], depth + 1)
+                    else:
+                        kv = int(k)
+                        if v[0] == "bool":
+                            c = v[1] if kv != 0 else f"(not {v[1]})"
+                        else:
+                            if ty == "i8" and kv >= 128:
+                                kv -= 256
+                            c = f"(= {v[1]} {int_lit(kv)})"
+                        seen.append(c)
+                        run(tgt, env, pc + [c], depth + 1)
+                return
+            m = re.match(r"^(_\d+) = (?:core::panicking::)?panic(?:_\w+)?\((.*)\) -> .*$", st)
+            if m:
+                out.append((pc, ("panic", m.group(2)[:60])))
+                return
+            m = re.match(r"^(_\d+) = ([\w:<>]+)\((.*)\) -> \[return: (bb\d+), unwind .*\]$", st)
+            if m:
+                callee = m.group(2).split("::")[-1]
+                if callee not in sym.uninterp:
+                    raise Untranslatable(f"call to {m.group(2)} (function is no longer call-free)")
+                env[m.group(1)] = sym.uninterp[callee](sym)
+                return run(m.group(4), env, pc, depth + 1)
+            m = re.match(r"^(_\d+) = (.*)$", st)
+            if m:
+                env[m.group(1)] = eval_rvalue(sym, env, locs, m.group(1), m.group(2))
+                continue
+            raise Untranslatable(f"statement {st!r}")
+        raise Untranslatable(f"block {bb} has no terminator")
+
+    run("bb0", args, [], 0)
+    return out
+
+
+# ------------------------------------------------------------------------------------------------
+# solver access
+# ------------------------------------------------------------------------------------------------
+SOLVERS = [("z3", ["/usr/bin/z3", "-in", "-T:60"]), ("cvc5", ["cvc5", "--lang", "smt2", "--tlimit=60000", "--produce-models"])]
+
+
+def solve(script):
+    """-> {solver: ('unsat'|'sat'|'unknown'|'error', model_text)}"""
+    res = {}
+    for name, cmd in SOLVERS:
+        try:
+            p = subprocess.run(cmd, input=script, stdout=subprocess.PIPE, stderr=subprocess.STDOUT, text=True, timeout=120)
+            o = p.stdout
+        except Exception as e:  # noqa
+            res[name] = ("error", repr(e))
+            continue
+        if "(error" in o:
+            res[name] = ("error", o[:300])
+        else:
+            first = o.strip().splitlines()[0] if o.strip() else "unknown"
+            res[name] = (first if first in ("sat", "unsat", "unknown") else "error", o[:600])
+    return res
+
+
+def pc_term(pc):
+    return "true" if not pc else "(and " + " ".join(pc) + ")"
+
+
+class Obligations:
+    def __init__(self):
+        self.items = []   # dicts
+        self.time = 0.0
+
+    def check(self, name, decls, assumptions, negated_goal, describe, expect="proved"):
+        script = "(set-logic ALL)\n(set-option :produce-models true)\n" + "\n".join(decls) + "\n" + \
+                 "\n".join(f"(assert {a})" for a in assumptions) + f"\n(assert {negated_goal})\n(check-sat)\n"
+        t = time.time()
+        r = solve(script)
+        if all(v[0] == "sat" for v in r.values()):
+            r2 = solve(script + "(get-model)\n")   # counterexample values
+            r = {k: (r[k][0], r2[k][1]) for k in r}
+        self.time += time.time() - t
+        verdicts = {k: v[0] for k, v in r.items()}
+        if all(v == "unsat" for v in verdicts.values()):
+            st = "proved"
+        elif all(v == "sat" for v in verdicts.values()):
+            st = "refuted"
+        else:
+            st = "inconclusive"
+        if expect == "refuted":
+            # vacuity witness: a deliberately false goal must come back refuted (sat), else the encoding is vacuous
+            st = "witness-ok" if st == "refuted" else "inconclusive"
+        self.items.append({"obligation": name, "describe": describe, "verdicts": verdicts, "status": st,
+                           "model": r["z3"][1][:400] if st == "refuted" else None})
+        return st
+
+
+# ------------------------------------------------------------------------------------------------
+# the kernels
+# ------------------------------------------------------------------------------------------------
+def summary_term_int(pths):
+    """ite-chain of the int return value over the paths; also returns the condition under which a panic /
+    unreachable is hit."""
+    ret, bad = None, []
+    for pc, outc in pths:
+        if outc[0] == "return":
+            if outc[1] is None or outc[1][0] not in ("int", "bool"):
+                raise Untranslatable("non-scalar return")
+            ret = outc[1][1] if ret is None else f"(ite {pc_term(pc)} {outc[1][1]} {ret})"
+        else:
+            bad.append(pc_term(pc))
+    return ret, ("false" if not bad else "(or " + " ".join(bad) + ")")
+
+
+def summary_term_enum(pths):
+    ret, bad = None, []
+    for pc, outc in pths:
+        if outc[0] == "return":
+            if outc[1] is None or outc[1][0] != "enum":
+                raise Untranslatable("non-enum return")
+            ret = outc[1][2] if ret is None else f"(ite {pc_term(pc)} {outc[1][2]} {ret})"
+        else:
+            bad.append(pc_term(pc))
+    return ret, ("false" if not bad else "(or " + " ".join(bad) + ")")
+
+
+def consts_of(mir):
+    c = {}
+    for m in re.finditer(r"^const (?:[\w:]+::)?(\w+): i32 = const (-?\d+)_i32;", mir, re.M):
+        c[m.group(1)] = int(m.group(2))
+    return c
+
+
+def check_get_exit_code(mir, ob):
+    text = find_fn(mir, r"(?:commands::test::)?get_exit_code")
+    header, locs, blocks = parse_fn(text)
+    consts = consts_of(mir)
+    for k in ("SUCCESS_STATUS_CODE", "TEST_ERROR_STATUS_CODE", "TEST_FAILURE_STATUS_CODE"):
+        if k not in consts:
+            raise Untranslatable(f"const {k} not found")
+    S, E, F = consts["SUCCESS_STATUS_CODE"], consts["TEST_ERROR_STATUS_CODE"], consts["TEST_FAILURE_STATUS_CODE"]
+
+    def apply(sym, a, b):
+        return paths(sym, header, locs, blocks, {"_1": ("int", a), "_2": ("int", b)})
+
+    dom = lambda v: f"(or (= {v} {S}) (= {v} {E}) (= {v} {F}))"
+    sev = lambda v: f"(ite (= {v} {E}) 2 (ite (= {v} {F}) 1 0))"
+    # obligation 1: one step = more severe of the two; no panic inside the domain
+    sym = Sym(consts, {}, {})
+    a, b = sym.fresh("Int", "exit"), sym.fresh("Int", "test")
+    r, bad = summary_term_int(apply(sym, a, b))
+    ob.check("get_exit_code/step", sym.decls, [dom(a), dom(b)],
+             f"(not (and (not {bad}) (= {r} (ite (>= {sev(a)} {sev(b)}) {a} {b}))))",
+             f"for exit,test in {{{S},{E},{F}}}: result is the more severe code (error {E} > failure {F} > success {S}) and unreachable!() is not hit")
+    # obligation 2: fold over 3 codes from SUCCESS = most severe seen, order independent
+    sym = Sym(consts, {}, {})
+    c = [sym.fresh("Int", f"c{i}") for i in range(3)]
+
+    def fold(order):
+        acc, bads = str(S), []
+        for i in order:
+            r_, b_ = summary_term_int(apply(sym, acc, c[i]))
+            acc, bads = r_, bads + [b_]
+        return acc, "(or " + " ".join(bads) + ")"
+    f1, b1 = fold([0, 1, 2])
+    f2, b2 = fold([2, 0, 1])
+    worst = f"(ite (or (= {c[0]} {E}) (= {c[1]} {E}) (= {c[2]} {E})) {E} (ite (or (= {c[0]} {F}) (= {c[1]} {F}) (= {c[2]} {F})) {F} {S}))"
+    ob.check("get_exit_code/fold3", sym.decls, [dom(x) for x in c],
+             f"(not (and (not {b1}) (not {b2}) (= {f1} {worst}) (= {f2} {worst})))",
+             "fold over 3 per-file codes = 1 if any 1, else 7 if any 7, else 0; same for a permuted order")
+    # obligation 3: the domain is closed (result stays in {0,1,7}) - keeps `_ => unreachable!()` dead
+    sym = Sym(consts, {}, {})
+    a, b = sym.fresh("Int", "exit"), sym.fresh("Int", "test")
+    r, bad = summary_term_int(apply(sym, a, b))
+    ob.check("get_exit_code/closed", sym.decls, [dom(a), dom(b)], f"(not {dom(r)})", "result stays inside {0,1,7}")
+    ob.check("get_exit_code/witness", sym.decls, [dom(a), dom(b)], f"(not (= {r} {S}))",
+             "vacuity witness: 'result is always 0' must be refuted", expect="refuted")
+    return ["commands::test::get_exit_code"]
+
+
+def status_enum(src):
+    t = open(os.path.join(src, "guard", "src", "rules", "mod.rs")).read()
+    m = re.search(r"enum Status \{(.*?)\}", t, re.S)
+    if not m:
+        raise Untranslatable("enum Status not found in source")
+    vs = [v for v in re.sub(r"#\[[^\]]*\]", "", m.group(1)).replace("\n", " ").split(",")]
+    vs = [v.strip() for v in vs if v.strip()]
+    if sorted(vs) != ["FAIL", "PASS", "SKIP"]:
+        raise Untranslatable(f"unexpected Status variants {vs}")
+    return vs
+
+
+def check_status_and(mir, src, ob):
+    text = find_fn(mir, r"rules::<impl at guard/src/rules/mod\.rs:\d+:\d+: \d+:\d+>::and")
+    header, locs, blocks = parse_fn(text)
+    vs = status_enum(src)
+    P, F_, S_ = vs.index("PASS"), vs.index("FAIL"), vs.index("SKIP")
+    enums = {"Status": vs}
+
+    def st(t):
+        return ("enum", "rules::Status", t, {})
+
+    def apply(sym, a, b):
+        r, bad = summary_term_enum(paths(sym, header, locs, blocks, {"_1": st(a), "_2": st(b)}))
+        return r, bad
+    dom = lambda v: f"(and (<= 0 {v}) (<= {v} 2))"
+    sym = Sym({}, enums, {})
+    a, b, c = (sym.fresh("Int", x) for x in "abc")
+    ab, bad1 = apply(sym, a, b)
+    ba, bad2 = apply(sym, b, a)
+    ab_c, bad3 = apply(sym, ab, c)
+    bc, bad4 = apply(sym, b, c)
+    a_bc, bad5 = apply(sym, a, bc)
+    sa, bad6 = apply(sym, str(S_), a)
+    as_, bad7 = apply(sym, a, str(S_))
+    rule = f"(ite (or (= {a} {F_}) (= {b} {F_}) (= {c} {F_})) {F_} (ite (or (= {a} {P}) (= {b} {P}) (= {c} {P})) {P} {S_}))"
+    start, bad8 = apply(sym, str(S_), a)
+    s2, bad9 = apply(sym, start, b)
+    s3, bad10 = apply(sym, s2, c)
+    nobad = "(not (or " + " ".join([bad1, bad2, bad3, bad4, bad5, bad6, bad7, bad8, bad9, bad10]) + "))"
+    ob.check("Status::and/algebra", sym.decls, [dom(a), dom(b), dom(c)],
+             f"(not (and {nobad} (= {ab} {ba}) (= {ab_c} {a_bc}) (= {sa} {a}) (= {as_} {a}) (= {s3} {rule})))",
+             "commutative, associative, SKIP neutral, fold from SKIP over 3 statuses = FAIL if any FAIL else PASS if any PASS else SKIP")
+    ob.check("Status::and/witness", sym.decls, [dom(a), dom(b), dom(c)], f"(not (= {ab} {a}))",
+             "vacuity witness: 'a.and(b) == a' must be refuted", expect="refuted")
+    return ["rules::Status::and"]
+
+
+def check_compare_tables(mir, ob):
+    """compare_lt/le/gt/ge as functions of compare_values' result (uninterpreted):
+    Ok(Less/Equal/Greater) -> the documented truth table; Err -> Err (same error)."""
+    fns = []
+    table = {"compare_lt": (True, False, False), "compare_le": (True, True, False),
+             "compare_gt": (False, False, True), "compare_ge": (False, True, True)}
+    for fname, (tl, te, tg) in table.items():
+        text = find_fn(mir, r"(?:rules::)?path_value::" + fname)
+        header, locs, blocks = parse_fn(text)
+
+        def fresh_result(sym):
+            tag = sym.fresh("Int", "cv_tag")
+            o = sym.fresh("Int", "cv_ord")
+            e = sym.fresh("Int", "cv_err")
+            sym.assumptions = [f"(or (= {tag} 0) (= {tag} 1))", f"(and (<= (- 1) {o}) (<= {o} 1))"]
+            sym.cv = (tag, o, e)
+            return ("enum", "Result", tag, {"Ok": ("enum", "std::cmp::Ordering", o, {}), "Err": ("int", e)})
+        sym = Sym({}, {}, {"compare_values": fresh_result})
+        dummy = ("int", "0")
+        pths = paths(sym, header, locs, blocks, {"_1": dummy, "_2": dummy})
+        tag, o, e = sym.cv
+        # build the result as (rtag, rbool, rerr)
+        goal_parts = []
+        for pc, outc in pths:
+            if outc[0] != "return":
+                goal_parts.append(f"(not {pc_term(pc)})")   # no panic / unreachable path is feasible
+                continue
+            v = outc[1]
+            if v[0] != "enum" or v[1] != "Result":
+                raise Untranslatable("unexpected return shape")
+            if "Ok" in v[3]:
+                want = f"(ite (= {o} (- 1)) {str(tl).lower()} (ite (= {o} 0) {str(te).lower()} {str(tg).lower()}))"
+                goal_parts.append(f"(=> {pc_term(pc)} (and (= {tag} 0) (= {v[3]['Ok'][1]} {want})))")
+            else:
+                goal_parts.append(f"(=> {pc_term(pc)} (and (= {tag} 1) (= {v[3]['Err'][1]} {e})))")
+        # and the paths are exhaustive
+        goal_parts.append("(or " + " ".join(pc_term(pc) for pc, outc in pths if outc[0] == "return") + ")")
+        ob.check(f"{fname}/table", sym.decls, sym.assumptions, "(not (and " + " ".join(goal_parts) + "))",
+                 f"{fname}: Ok(Less,Equal,Greater) -> ({tl},{te},{tg}); Err(e) -> Err(e); no panic path")
+        ob.check(f"{fname}/witness", sym.decls, sym.assumptions, f"(not (= {tag} 1))",
+                 "vacuity witness: 'compare_values always fails' must be refuted", expect="refuted")
+        fns.append("rules::path_value::" + fname)
+    return fns
+
+
+PROP_KERNELS = {
+    "C06": ["exit"], "C16": ["exit"], "C09": ["status"], "C02": ["status"], "C04": ["status"], "C13": ["cmp"],
+}
+
+
+def run_for_property(prop, src, tier):
+    kernels = PROP_KERNELS.get(prop)
+    if not kernels:
+        return None
+    t0 = time.time()
+    ob = Obligations()
+    fns = []
+    try:
+        mir = dump_mir(src)
+        for k in kernels:
+            if k == "exit":
+                fns += check_get_exit_code(mir, ob)
+            elif k == "status":
+                fns += check_status_and(mir, src, ob)
+            elif k == "cmp":
+                fns += check_compare_tables(mir, ob)
+    except Untranslatable as e:
+        return {"status": "inconclusive", "reason": "not translatable: " + str(e), "functions": fns,
+                "queries": len(ob.items) * len(SOLVERS), "obligations_discharged": 0, "obligations": ob.items,
+                "wall_s": round(time.time() - t0, 1)}
+    refuted = [o for o in ob.items if o["status"] == "refuted"]
+    inconc = [o for o in ob.items if o["status"] == "inconclusive"]
+    status = "violation" if refuted else ("inconclusive" if inconc else "ok")
+    return {"status": status, "functions": fns, "queries": len(ob.items) * len(SOLVERS),
+            "obligations_discharged": sum(1 for o in ob.items if o["status"] == "proved"),
+            "vacuity_witnesses_ok": sum(1 for o in ob.items if o["status"] == "witness-ok"),
+            "obligations": ob.items, "failures": refuted, "solver_seconds": round(ob.time, 2),
+            "solvers": ["z3 4.8.12 (/usr/bin/z3)", "cvc5 1.0"], "encoding": "Int/Bool terms, one term per CFG path (no arithmetic in these bodies => no wrap-around to model)",
+            "reason": "; ".join(o["obligation"] for o in inconc) if inconc else None,
+            "wall_s": round(time.time() - t0, 1)}
+
+
+def replay(d):
+    print("MIR->SMT counterexample (model of the negated obligation):")
+    for f in d.get("failures", []):
+        print(" ", f["obligation"], "-", f["describe"])
+        print("  ", (f.get("model") or "").replace("\n", " ")[:300])
+    return 1
+
+
+if __name__ == "__main__":
+    import sys, json
+    src = sys.argv[2] if len(sys.argv) > 2 else "/repo"
+    print(json.dumps(run_for_property(sys.argv[1], src, "quick"), indent=1))
